@@ -19,6 +19,7 @@ import (
 	"github.com/gobwas/ws/wsutil"
 
 	"verif/eng"
+	"verif/multi"
 	"verif/sim"
 )
 
@@ -242,6 +243,7 @@ type hsOutcome struct {
 	Consumed      int
 	Pipe          *Pipe
 	Panic         string
+	RestErr       error
 	Wrapped       *recConn // the application's wrapper, if any
 	ConnIsWrapper bool
 }
@@ -392,7 +394,16 @@ func (w *stubRW) Hijack() (net.Conn, *bufio.ReadWriter, error) {
 
 // runServer runs the configured upgrader on the pipe.
 func runServer(r *eng.Run, s hsServer, p *Pipe) *hsOutcome {
-	o := &hsOutcome{Pipe: p}
+	o := runServerConn(r, s, p, func() []byte { return p.Out }, func() bool { return !p.WriteFailed() })
+	o.Pipe = p
+	o.Consumed = p.Consumed()
+	return o
+}
+
+// runServerConn runs the configured upgrader on any connection; sent returns
+// what has been written to it so far.
+func runServerConn(r *eng.Run, s hsServer, p net.Conn, sent func() []byte, writable func() bool) *hsOutcome {
+	o := &hsOutcome{}
 	var hs ws.Handshake
 	switch s.Kind {
 	case 0:
@@ -435,12 +446,11 @@ func runServer(r *eng.Run, s hsServer, p *Pipe) *hsOutcome {
 		_, _, hs, o.Err = u.Upgrade(req, &stubRW{conn: p, br: br, hdr: http.Header{}})
 	}
 	o.Protocol, o.Exts = hs.Protocol, hs.Extensions
-	o.Head = append([]byte(nil), p.Out...)
-	if o.Err == nil && len(s.Trailing) > 0 && !p.WriteFailed() {
+	o.Head = append([]byte(nil), sent()...)
+	if o.Err == nil && len(s.Trailing) > 0 && writable() {
 		p.Write(s.Trailing)
 	}
-	o.Written = p.Out
-	o.Consumed = p.Consumed()
+	o.Written = sent()
 	return o
 }
 
@@ -457,7 +467,17 @@ func (c hsClient) dialer() ws.Dialer {
 
 // runClient runs the configured dialer on the pipe.
 func runClient(r *eng.Run, c hsClient, p *Pipe) *hsOutcome {
-	o := &hsOutcome{Pipe: p}
+	o := runClientConn(r, c, p, func() []byte { return p.Out }, -1)
+	o.Pipe = p
+	o.Consumed = p.Consumed()
+	return o
+}
+
+// runClientConn runs the configured dialer on any connection. restLen < 0:
+// read what follows the handshake until the stream ends; else exactly restLen
+// bytes (a live peer never ends the stream).
+func runClientConn(r *eng.Run, c hsClient, p net.Conn, sent func() []byte, restLen int) *hsOutcome {
+	o := &hsOutcome{}
 	d := c.dialer()
 	var (
 		br *bufio.Reader
@@ -499,23 +519,33 @@ func runClient(r *eng.Run, c hsClient, p *Pipe) *hsOutcome {
 		}
 	}
 	o.Protocol, o.Exts = hs.Protocol, hs.Extensions
-	o.Written = p.Out
-	o.Head = p.Out
+	o.Written = sent()
+	o.Head = o.Written
 	if o.Err == nil {
 		var src io.Reader = conn
 		if br != nil {
 			src = br
 		}
-		rest, err := io.ReadAll(src)
+		var (
+			rest []byte
+			err  error
+		)
+		if restLen < 0 {
+			rest, err = io.ReadAll(src)
+		} else {
+			rest = make([]byte, restLen)
+			var n int
+			n, err = io.ReadFull(src, rest)
+			rest = rest[:n]
+		}
 		if err != nil && err != ErrInjected {
-			r.Failf("post_handshake_read_error", "reading the bytes behind the response head failed: %v", err)
+			o.RestErr = err
 		}
 		o.Rest = rest
 		if br != nil {
 			ws.PutReader(br)
 		}
 	}
-	o.Consumed = p.Consumed()
 	return o
 }
 
@@ -566,6 +596,37 @@ func roundTrip(r *eng.Run, c hsClient, s hsServer, rseed int64, segS, segC int) 
 		r.Internalf("the dialer wrote a different request on its second run (%d vs %d bytes): nonce not reseeded?", len(t.Client.Written), len(t.Request))
 	}
 	return t
+}
+
+// roundTripTasks runs dialer and upgrader as two tasks under the seeded
+// scheduler of engine multi (every conn and pool operation is a scheduling
+// point; reads are segmented by the tape). If everybody is parked the
+// scheduler closes the conns, so "hung" becomes "failed".
+func roundTripTasks(r *eng.Run, c hsClient, s hsServer, rseed int64) (cl, sv *hsOutcome) {
+	sch, err := multi.NewSched(r.T, []int{0, 1, 9}[r.T.Int(sim.LSched, 3)])
+	if err != nil {
+		r.Internalf("scheduler: %v", err)
+	}
+	cc, sc := sch.Pipe(r.T.Int(sim.LSegMode, 3))
+	crec, srec := &recConn{Conn: cc}, &recConn{Conn: sc}
+	rand.Seed(rseed)
+	var cpanic, spanic interface{}
+	sch.Go(func() {
+		defer func() { cpanic = recover() }()
+		cl = runClientConn(r, c, crec, func() []byte { return crec.written }, len(s.Trailing))
+	})
+	sch.Go(func() {
+		defer func() { spanic = recover() }()
+		sv = runServerConn(r, s, srec, func() []byte { return srec.written }, func() bool { return true })
+	})
+	sch.Run()
+	for _, p := range []interface{}{cpanic, spanic} {
+		if p != nil {
+			panic(p)
+		}
+	}
+	r.Res.Probes["task_switches"] += sch.Switches()
+	return cl, sv
 }
 
 // expectedProtocol derives the subprotocol both sides must report.
@@ -705,6 +766,9 @@ func checkWrappers(r *eng.Run, t *hsTrip) {
 		r.Failf("wrapconn_bypassed", "the application's WrapConn was never called (debug=%d)", t.C.Debug)
 	}
 	if cl.ok() {
+		if cl.RestErr != nil {
+			r.Failf("post_handshake_read_error", "reading the bytes behind the response head failed: %v", cl.RestErr)
+		}
 		if !bytes.Equal(cl.Rest, t.S.Trailing) {
 			r.Failf("post_handshake_bytes_lost", "server sent %d bytes behind the 101, the client could read %d through buffer+conn (debug=%d)%s", len(t.S.Trailing), len(cl.Rest), t.C.Debug, firstDiff(cl.Rest, t.S.Trailing))
 		}
@@ -733,6 +797,27 @@ func C11(r *eng.Run) {
 	}
 	checkAgreement(r, "C11", t)
 	checkWrappers(r, t)
+	// The same pair as two concurrently scheduled tasks: the outcome must be
+	// the one of the sequential composition, whatever the interleaving.
+	if s.Kind != 1 || true {
+		cl, sv := roundTripTasks(r, c, s, rseed)
+		if cl == nil || sv == nil {
+			r.Internalf("task round trip returned no outcome")
+		}
+		tt := &hsTrip{C: c, S: s, Request: cl.Written, Server: sv, Client: cl}
+		if cl.ok() != t.Client.ok() || sv.ok() != t.Server.ok() {
+			r.Failf("outcome_depends_on_schedule", "as concurrent tasks: server %s client %s; one after the other: server %s client %s\n  %s\n  %s",
+				sv.summary(), cl.summary(), t.Server.summary(), t.Client.summary(), c, s)
+		}
+		checkAgreement(r, "C11", tt)
+		if cl.ok() && (cl.Protocol != t.Client.Protocol || !sameStrings(extStrings(cl.Exts), extStrings(t.Client.Exts))) {
+			r.Failf("outcome_depends_on_schedule", "as concurrent tasks the client reports %s, one after the other %s", cl.summary(), t.Client.summary())
+		}
+		if cl.ok() && !bytes.Equal(cl.Rest, s.Trailing) {
+			r.Failf("post_handshake_bytes_lost", "as concurrent tasks: server sent %d bytes behind the 101, the client could read %d (err %v, debug=%d)", len(s.Trailing), len(cl.Rest), cl.RestErr, c.Debug)
+		}
+		r.Probe("handshake_as_two_tasks")
+	}
 	// O2: the same peer on the same bytes with one segment and default buffers.
 	sb, cb := s, c
 	sb.RBuf, sb.WBuf, cb.RBuf, cb.WBuf = 0, 0, 0, 0
